@@ -12,7 +12,12 @@
 // Deliberately not asserted (unspecified by the statement / docs):
 //   - v-once combined with v-if / v-else on the SAME element (is an element whose own condition is
 //     false "reached"?) - conditions are only put on ancestors;
-//   - v-once on <template>, on slot content, on the element that carries v-html="content";
+//   - v-once on <template>, on the element that carries v-html="content";
+//   - slots beyond what carries a marked element to its position: only plain default content
+//     (children of the include tag), one named slot (#s1 / v-slot:s1) and <slot> fallback content are
+//     generated; no scoped slot props, no <slot> inside supplied or fallback content, no named slot
+//     templates in sites that have layouts (a layout chain hands the page's slot templates on to the
+//     layouts' components, which is C06's business);
 //   - component files whose first node is <template> (everything after that node is dropped by the
 //     include machinery whether or not v-once is involved) - every component file starts with a
 //     plain marker element;
@@ -49,7 +54,12 @@ const prop = "C16"
 //	for : <div data-m="wM" v-for="x in nN">Kids</div>           (nN is a list with N elements 1..N)
 //	if  : <div data-m="vM" v-if="…">Kids</div>                  (Eq>0: "x == Eq", else constant Cond)
 //	div : <div data-m="dM">Kids</div>
-//	inc : <template include="components/Comp.vuego"></template>
+//	inc : <template include="components/Comp.vuego">Kids<template #s1>Named</template></template>
+//	      Kids = default slot content (direct children of the include tag), Named = content of the
+//	      named slot s1; both optional
+//	slot: <slot>Kids</slot> or, with Nm, <slot name="s1">Kids</slot> - only in component files;
+//	      Kids = fallback content. Supplied content and fallback content are instantiated once per
+//	      rendering of the slot, i.e. they are further "instantiations of that same element".
 type Item struct {
 	K    string `json:"k"`
 	M    int    `json:"m,omitempty"`
@@ -61,6 +71,9 @@ type Item struct {
 	Eq   int    `json:"eq,omitempty"`
 	Comp string `json:"comp,omitempty"`
 	Kids []Item `json:"kids,omitempty"`
+	// inc: content of <template #s1> inside the include tag
+	Named []Item `json:"named,omitempty"`
+	Nm    bool   `json:"nm,omitempty"` // slot: the named slot s1 instead of the default slot
 }
 
 // Page is a page file pg<i>.vuego; Layout (optional) goes into its front matter.
@@ -210,7 +223,32 @@ func src(items []Item, sb *strings.Builder) {
 			src(it.Kids, sb)
 			sb.WriteString("</div>\n")
 		case "inc":
-			fmt.Fprintf(sb, "<template include=\"components/%s.vuego\"></template>\n", it.Comp)
+			fmt.Fprintf(sb, "<template include=\"components/%s.vuego\">", it.Comp)
+			if len(it.Kids) > 0 {
+				sb.WriteString("\n")
+				src(it.Kids, sb)
+			}
+			if len(it.Named) > 0 {
+				attr := "#s1"
+				if it.Named[0].M%2 == 1 {
+					attr = "v-slot:s1"
+				}
+				fmt.Fprintf(sb, "<template %s>\n", attr)
+				src(it.Named, sb)
+				sb.WriteString("</template>\n")
+			}
+			sb.WriteString("</template>\n")
+		case "slot":
+			if it.Nm {
+				sb.WriteString("<slot name=\"s1\">")
+			} else {
+				sb.WriteString("<slot>")
+			}
+			if len(it.Kids) > 0 {
+				sb.WriteString("\n")
+				src(it.Kids, sb)
+			}
+			sb.WriteString("</slot>\n")
 		}
 	}
 }
@@ -276,6 +314,7 @@ func data(s Step) map[string]any {
 
 func validate(c Case) error {
 	seenM := map[int]bool{}
+	inContent := 0 // > 0 while inside supplied slot content or fallback content
 	var walk func(items []Item, file string, comp int, inLoop bool, head bool) error
 	walk = func(items []Item, file string, comp int, inLoop bool, head bool) error {
 		for _, it := range items {
@@ -311,7 +350,7 @@ func validate(c Case) error {
 					return err
 				}
 			case "if":
-				if head || (it.Eq > 0 && !inLoop) || it.Eq > 3 || it.Eq < 0 {
+				if head || (it.Eq > 0 && (!inLoop || inContent > 0)) || it.Eq > 3 || it.Eq < 0 {
 					return fmt.Errorf("bad if")
 				}
 				if err := walk(it.Kids, file, comp, inLoop, false); err != nil {
@@ -328,6 +367,26 @@ func validate(c Case) error {
 				j := indexOf(compOrder, it.Comp)
 				if _, ok := c.Comps[it.Comp]; !ok || j < 0 || j <= comp || head {
 					return fmt.Errorf("bad include of %q in %s", it.Comp, file)
+				}
+				if len(it.Named) > 0 && len(c.Layouts) > 0 {
+					return fmt.Errorf("named slot content in a site with layouts")
+				}
+				inContent++
+				for _, part := range [][]Item{it.Kids, it.Named} {
+					if err := walk(part, file, comp, false, false); err != nil {
+						return err
+					}
+				}
+				inContent--
+			case "slot":
+				if comp < 0 || inContent > 0 || head {
+					return fmt.Errorf("bad slot in %s", file)
+				}
+				inContent++
+				err := walk(it.Kids, file, comp, false, false)
+				inContent--
+				if err != nil {
+					return err
 				}
 			default:
 				return fmt.Errorf("bad item kind %q", it.K)
@@ -407,8 +466,15 @@ func validate(c Case) error {
 // reference model
 
 // link is the model of ONE render (the page, or one layout of the chain): its own seen set.
+// scope is what one include tag supplies to its component instance.
+type scope struct {
+	def, named []Item
+	parent     *scope // the scope in effect where the include tag is written
+}
+
 type link struct {
 	c       *Case
+	scope   *scope
 	seen    map[int]bool
 	reached map[int]int // marker -> number of times its position was reached in this render
 	loop    []int
@@ -467,7 +533,27 @@ func (l *link) walk(items []Item) {
 			l.sb.WriteString(")")
 		case "inc":
 			fmt.Fprintf(&l.sb, "c%s()", it.Comp)
+			old := l.scope
+			l.scope = &scope{def: it.Kids, named: it.Named, parent: old}
 			l.walk(l.c.Comps[it.Comp])
+			l.scope = old
+		case "slot":
+			var content []Item
+			if l.scope != nil {
+				content = l.scope.def
+				if it.Nm {
+					content = l.scope.named
+				}
+			}
+			if len(content) > 0 {
+				// supplied content belongs to the includer
+				old := l.scope
+				l.scope = old.parent
+				l.walk(content)
+				l.scope = old
+			} else {
+				l.walk(it.Kids) // fallback content
+			}
 		}
 	}
 }
@@ -576,6 +662,9 @@ func where(c *Case, m int) string {
 				return &items[i]
 			}
 			if r := find(items[i].Kids); r != nil {
+				return r
+			}
+			if r := find(items[i].Named); r != nil {
 				return r
 			}
 		}
@@ -738,6 +827,37 @@ func classify(c Case) (bool, []string) {
 				if inLoop {
 					set["include-in-loop"] = true
 				}
+				direct := func(items []Item, what string) {
+					for _, k := range items {
+						if k.K == "once" {
+							set["once=direct-child-of-"+what] = true
+							if inLoop {
+								set["once=direct-child-of-"+what+", include tag in loop"] = true
+							}
+						}
+					}
+				}
+				direct(it.Kids, "default-slot-content")
+				direct(it.Named, "named-slot-content")
+				if len(it.Kids) > 0 {
+					set["include-with-default-slot-content"] = true
+				}
+				if len(it.Named) > 0 {
+					set["include-with-named-slot-content"] = true
+				}
+				walk(it.Kids, kind+"/slot-content", false, inOnce, underIf)
+				walk(it.Named, kind+"/slot-content", false, inOnce, underIf)
+			case "slot":
+				set["component-has-slot"] = true
+				if inLoop {
+					set["slot-in-loop"] = true
+				}
+				for _, k := range it.Kids {
+					if k.K == "once" {
+						set["once=direct-child-of-slot-fallback"] = true
+					}
+				}
+				walk(it.Kids, kind+"/slot-fallback", false, inOnce, underIf)
 			}
 		}
 	}
@@ -885,7 +1005,7 @@ func (u *uni) slot(name string, tags []string) []Item {
 	return []Item{{K: "once", M: u.id(), Tag: tags[u.kinds%len(tags)], Sp: (u.sp + u.kinds - 1) % len(spellings)}}
 }
 
-var pageSlots = []string{"s0", "s1", "s2", "s3", "s4", "s5", "q0", "q1", "a0", "a1", "a2", "b0", "c0"}
+var pageSlots = []string{"s0", "s1", "s2", "s3", "s4", "s5", "q0", "q1", "a0", "a1", "a2", "b0", "c0", "t0", "t1", "f0", "f1"}
 var l1Slots = []string{"lb", "ll"}
 var docSlots = []string{"h0", "la"}
 
@@ -897,6 +1017,9 @@ type uparams struct {
 
 func universeSlots(p uparams) []string {
 	s := append([]string(nil), pageSlots...)
+	if p.chain == "none" {
+		s = append(s, "t2") // named slot content: only in sites without layouts
+	}
 	switch p.chain {
 	case "l1":
 		s = append(s, l1Slots...)
@@ -930,6 +1053,16 @@ func universe(fill []string, p uparams) Case {
 	}
 	P = append(P, Item{K: "for", M: u.id(), N: 3, Kids: []Item{{K: "if", M: u.id(), Eq: 2, Kids: u.slot("s3", all)}}})
 	P = append(P, Item{K: "div", M: u.id(), Kids: u.slot("s4", all)})
+	// component D has a default slot and a named slot, both with fallback content; the page includes
+	// it in a loop with default content, then with named content (sites without layouts), then twice bare
+	P = append(P, Item{K: "for", M: u.id(), N: p.nB, Kids: []Item{{K: "inc", Comp: "D",
+		Kids: append(u.slot("t0", all), Item{K: "div", M: u.id(), Kids: u.slot("t1", all)})}}})
+	if p.chain == "none" {
+		P = append(P, Item{K: "for", M: u.id(), N: p.nA, Kids: []Item{{K: "inc", Comp: "D", Named: u.slot("t2", all)}}})
+	}
+	for k := 0; k < p.kA; k++ {
+		P = append(P, inc("D"))
+	}
 	P = append(P, u.slot("s5", all)...)
 	var Q []Item
 	Q = append(Q, u.slot("q0", all)...)
@@ -943,9 +1076,10 @@ func universe(fill []string, p uparams) Case {
 	B = append(B, u.slot("b0", all)...)
 	B = append(B, inc("C"))
 	C := u.slot("c0", all)
+	D := []Item{{K: "slot", Kids: u.slot("f0", all)}, {K: "for", M: u.id(), N: 2, Kids: []Item{{K: "slot", Nm: true, Kids: u.slot("f1", all)}}}}
 	c := Case{
 		Pages:   []Page{{Items: P}, {Items: Q}},
-		Comps:   map[string][]Item{"A": A, "B": B, "C": C},
+		Comps:   map[string][]Item{"A": A, "B": B, "C": C, "D": D},
 		Layouts: map[string]Layout{},
 	}
 	mkL1 := func(next string) Layout {
@@ -1019,6 +1153,9 @@ type gen struct {
 	next   int
 	budget int // marked elements still to place
 	comps  []string
+	// inContent > 0 while drawing supplied slot content or fallback content (no <slot>, no x==k there)
+	inContent int
+	namedOK   bool // named slot content only in sites without layouts
 }
 
 func (g *gen) id() int { g.next++; return g.next }
@@ -1038,6 +1175,9 @@ func (g *gen) items(label string, comp, depth int, inLoop bool, max int) []Item 
 		kinds := []string{"once", "once", "for", "div", "if"}
 		if len(allowed) > 0 {
 			kinds = append(kinds, "inc", "inc")
+		}
+		if comp >= 0 && g.inContent == 0 {
+			kinds = append(kinds, "slot")
 		}
 		if depth >= 3 {
 			kinds = []string{"once"}
@@ -1075,7 +1215,7 @@ func (g *gen) items(label string, comp, depth int, inLoop bool, max int) []Item 
 			out = append(out, it)
 		case "if":
 			it := Item{K: "if", M: g.id()}
-			if inLoop && rapid.Bool().Draw(g.t, l+"eq?") {
+			if inLoop && g.inContent == 0 && rapid.Bool().Draw(g.t, l+"eq?") {
 				it.Eq = rapid.IntRange(1, 3).Draw(g.t, l+"eq")
 			} else {
 				it.Cond = rapid.IntRange(0, 3).Draw(g.t, l+"cond") > 0
@@ -1083,7 +1223,26 @@ func (g *gen) items(label string, comp, depth int, inLoop bool, max int) []Item 
 			it.Kids = g.items(l, comp, depth+1, inLoop, 3)
 			out = append(out, it)
 		case "inc":
-			out = append(out, Item{K: "inc", Comp: rapid.SampledFrom(allowed).Draw(g.t, l+"comp")})
+			it := Item{K: "inc", Comp: rapid.SampledFrom(allowed).Draw(g.t, l+"comp")}
+			if depth < 3 {
+				g.inContent++
+				if rapid.IntRange(0, 2).Draw(g.t, l+"content?") == 0 {
+					it.Kids = g.items(l+"d", comp, depth+1, false, 2)
+				}
+				if g.namedOK && rapid.IntRange(0, 3).Draw(g.t, l+"named?") == 0 {
+					it.Named = g.items(l+"n", comp, depth+1, false, 2)
+				}
+				g.inContent--
+			}
+			out = append(out, it)
+		case "slot":
+			it := Item{K: "slot", Nm: rapid.IntRange(0, 2).Draw(g.t, l+"nm") == 0}
+			if depth < 3 {
+				g.inContent++
+				it.Kids = g.items(l+"f", comp, depth+1, false, 2)
+				g.inContent--
+			}
+			out = append(out, it)
 		}
 	}
 	return out
@@ -1096,12 +1255,14 @@ func genCase() func(t *rapid.T) Case {
 		nComps := rapid.IntRange(0, 4).Draw(t, "comps")
 		g.comps = compOrder[:nComps]
 		c := Case{Comps: map[string][]Item{}, Layouts: map[string]Layout{}}
+		nLay := rapid.SampledFrom([]int{0, 0, 1, 2, 3}).Draw(t, "layouts")
+		hasBase := rapid.IntRange(0, 3).Draw(t, "base") == 0
+		g.namedOK = nLay == 0 && !hasBase
 		// components first (innermost budget use is fine: every part draws from the same budget)
 		for i := nComps - 1; i >= 0; i-- {
 			c.Comps[g.comps[i]] = g.items("c"+g.comps[i], i, 1, false, 3)
 		}
 		// layouts
-		nLay := rapid.SampledFrom([]int{0, 0, 1, 2, 3}).Draw(t, "layouts")
 		chain := layoutOrder[:nLay]
 		for i := nLay - 1; i >= 0; i-- {
 			l := Layout{}
@@ -1118,7 +1279,7 @@ func genCase() func(t *rapid.T) Case {
 			l.After = g.items("la"+chain[i], -1, 1, false, 2)
 			c.Layouts[chain[i]] = l
 		}
-		if rapid.IntRange(0, 3).Draw(t, "base") == 0 {
+		if hasBase {
 			l := Layout{Doc: rapid.Bool().Draw(t, "basedoc")}
 			if l.Doc && g.budget > 0 && rapid.Bool().Draw(t, "basehead") {
 				g.budget--
@@ -1148,6 +1309,7 @@ func genCase() func(t *rapid.T) Case {
 					used[it.Comp] = true
 				}
 				mark(it.Kids)
+				mark(it.Named)
 			}
 		}
 		for _, p := range c.Pages {
@@ -1204,14 +1366,16 @@ func TestProp(t *testing.T) {
 	shard, shards := run.Shard()
 	// exhaustive: every choice of 1..k slots of the universe site x parameter sets x entry histories
 	params := []uparams{
-		{2, 2, 2, "none", 0}, {0, 1, 3, "l1", 1}, {3, 0, 1, "l1-l2", 2}, {1, 3, 2, "base", 3}, {3, 2, 1, "none", 4}, {2, 1, 2, "l1-l2", 1},
+		{2, 2, 2, "none", 0}, {0, 1, 3, "l1", 1}, {3, 0, 1, "l1-l2", 2}, {1, 3, 2, "base", 3},
 	}
 	maxFill := 2
 	if run.Thorough() {
 		maxFill = 3
 		params = nil
-		for _, ch := range []string{"none", "l1", "l1-l2", "base"} {
-			for _, n := range [][3]int{{2, 2, 2}, {0, 1, 3}, {3, 0, 1}, {1, 3, 2}} {
+		ns := [][3]int{{2, 2, 2}, {0, 1, 3}, {3, 0, 1}, {1, 3, 2}}
+		for i, ch := range []string{"none", "l1", "l1-l2", "base"} {
+			// two of the four loop/include settings per chain, so that each setting meets two chains
+			for _, n := range [][3]int{ns[i%4], ns[(i+1)%4]} {
 				params = append(params, uparams{n[0], n[1], n[2], ch, len(params) % len(spellings)})
 			}
 		}
